@@ -5,6 +5,8 @@ use crate::wctx::WorkerCtx;
 use serde_json::Value;
 
 pub mod c01;
+pub mod c02_03_05;
+pub mod graphs;
 pub mod c12;
 pub mod c13;
 pub mod c14;
@@ -34,6 +36,9 @@ pub trait Prop: Send {
 pub fn get(id: &str) -> Option<Box<dyn Prop>> {
     Some(match id {
         "C01" => Box::new(c01::C01),
+        "C02" => Box::new(c02_03_05::GraphProp(graphs::Which::C02)),
+        "C03" => Box::new(c02_03_05::GraphProp(graphs::Which::C03)),
+        "C05" => Box::new(c02_03_05::GraphProp(graphs::Which::C05)),
         "C12" => Box::new(c12::C12),
         "C13" => Box::new(c13::C13),
         "C14" => Box::new(c14::C14),
